@@ -817,13 +817,26 @@ impl Stringify for Value {
                     stringifier.write_token("}}", None, &end_location)?;
                     Ok(())
                 }
-                split_expression(
-                    &expression,
-                    stringifier,
-                    &double_brace_location.0,
-                    &double_brace_location.1,
-                    false,
-                )?;
+                // a literal that is only white space would be read back as white space between tags and dropped:
+                // it stays a binding
+                let blank_literal = matches!(
+                    &**expression,
+                    Expression::LitStr { value, .. }
+                        if !value.is_empty() && value.chars().all(|c| matches!(c, ' ' | '\x09'..='\x0D'))
+                );
+                if blank_literal {
+                    stringifier.write_token("{{", None, &double_brace_location.0)?;
+                    expression.stringify_write(stringifier)?;
+                    stringifier.write_token("}}", None, &double_brace_location.1)?;
+                } else {
+                    split_expression(
+                        &expression,
+                        stringifier,
+                        &double_brace_location.0,
+                        &double_brace_location.1,
+                        false,
+                    )?;
+                }
             }
         }
         Ok(())
